@@ -69,12 +69,12 @@ Qed.
 Lemma check_spec c : c09_check c = true ->
   c_obs c = snd (script_run minit (c_script c)) /\
   c_events c = map ev_obs (rev (s_events (m_s (fst (script_run minit (c_script c)))))) /\
-  (existsb step_outside (c_script c) = false -> drained_quiescent minit book0 (c_script c) = true).
+  (existsb step_outside (c_script c) = false -> c09_validb c = true /\ drained_quiescent minit book0 (c_script c) = true).
 Proof.
   unfold c09_check, model_obs. destruct (script_run minit (c_script c)) as [m os]. cbn [fst snd]. intros E.
   apply andb_true_iff in E as [E E3]. apply andb_true_iff in E as [E1 E2].
   apply (list_eqb_eq _ obs_eqb_eq) in E1. apply (list_eqb_eq _ evobs_eqb_eq) in E2.
-  split; [auto|]. split; [auto|]. intros H. rewrite H in E3. exact E3.
+  split; [auto|]. split; [auto|]. intros H. rewrite H in E3. cbn [orb] in E3. apply andb_true_iff in E3. exact E3.
 Qed.
 
 (* ---------- macro steps are runs of well-formed labels ---------- *)
@@ -480,15 +480,11 @@ Qed.
 Theorem oracle_clause_converges c :
   c09_valid c -> c09_check c = true -> cs_conv (conv_of c) = true.
 Proof.
-  intros W C. destruct (check_spec c C) as [Eo [Ee DQ]]. specialize (DQ (valid_not_outside _ W)). unfold conv_of. rewrite Ee, oracle_events, Eo.
+  intros W C. destruct (check_spec c C) as [Eo [Ee DQ]]. destruct (DQ (valid_not_outside _ W)) as [_ DQ']. clear DQ. rename DQ' into DQ. unfold conv_of. rewrite Ee, oracle_events, Eo.
   apply (conv_fold r0 (c_script c) minit cs0); try assumption; [apply minit_reach|intros ? ? []|reflexivity].
 Qed.
 
-(* executable form of c09_valid *)
-Definition dstep_wfb (d : dstep) : bool :=
-  negb (step_outside d) && match d with DRetry EnvAbort _ | DRetryFinish EnvAbort => false | DWrite op _ _ _ => op_is_write op | _ => true end.
-Definition c09_validb (c : c09_case) : bool := forallb dstep_wfb (c_script c).
-
+(* executable form of c09_valid: dstep_wfb / c09_validb in Model/C09Cases.v *)
 Lemma dstep_wfb_spec d : dstep_wfb d = true -> dstep_wf d.
 Proof.
   unfold dstep_wfb, dstep_wf. intros H. apply andb_true_iff in H as [H1 H2]. apply negb_true_iff in H1. split; [exact H1|].
